@@ -91,12 +91,12 @@ def rule_a_json_tags_agree(repo: Repo, rep: Report) -> None:
         if isinstance(n, ast.Assign) and norm(n.value) == "%s['type']" % dv:
             tvar = norm(n.targets[0])
     read = {}
-    for n in ast.walk(tr):
-        if isinstance(n, ast.If) and isinstance(n.test, ast.Compare) and norm(n.test.left) in (tvar, "%s['type']" % dv) and isinstance(n.test.comparators[0], ast.Constant):
-            tag = n.test.comparators[0].value
+    # the arms of the reader's dispatch on the tag: `if <tag> == "uri":` or `match <tag>: case "uri":` (vlib.h_c16.value_arms)
+    for tag, arm_body in H.value_arms(tr, (tvar, "%s['type']" % dv)):
+        if True:
             cls = None
             keys = set()
-            for x in [y for s in n.body for y in ast.walk(s)]:
+            for x in [y for s in arm_body for y in ast.walk(s)]:
                 if isinstance(x, ast.Return) and isinstance(x.value, ast.Call):
                     cls = norm(x.value.func)
                 if isinstance(x, ast.Subscript) and norm(x.value) == dv and isinstance(x.slice, ast.Constant):
@@ -111,6 +111,9 @@ def rule_a_json_tags_agree(repo: Repo, rep: Report) -> None:
                "read back as %s with keys %s" % (rc, sorted(rk)) if ok else "written as type %r with keys %s but read as %s with keys %s" % (tag, sorted(keys), rc, sorted(rk)), node=tw)
     # None -> None (unbound) by identity
     none_arm = any(isinstance(n, ast.If) and isinstance(n.test, ast.Compare) and isinstance(n.test.ops[0], ast.Is) and norm(n.test.left) == tv for n in ast.walk(tw))
+    # `match <term>: case None:` is the same identity test (a singleton pattern compares with `is`)
+    none_arm = none_arm or any(isinstance(n, ast.Match) and norm(n.subject) == tv and any(
+        c.guard is None and isinstance(c.pattern, ast.MatchSingleton) and c.pattern.value is None for c in n.cases) for n in ast.walk(tw))
     rep.ob(RULE, js, "termToJSON", "%s is None -> None" % tv, none_arm, "" if none_arm else "termToJSON no longer maps exactly None to 'unbound'", node=tw)
     # whoever turns a row into its JSON object (the callers of termToJSON in the module) leaves a cell out only when it `is None`
     callers = [(q, f) for q, f in _top_functions(js) if f is not tw and _calls_of(f, "termToJSON")]
@@ -132,7 +135,12 @@ def rule_a_json_tags_agree(repo: Repo, rep: Report) -> None:
                     continue
                 tests = [n.test] if isinstance(n, ast.If) else n.ifs
                 for t in tests:
-                    if not (isinstance(t, ast.Compare) and isinstance(t.ops[0], ast.IsNot) and isinstance(t.comparators[0], ast.Constant) and t.comparators[0].value is None):
+                    ident = (isinstance(t, ast.Compare) and len(t.ops) == 1 and isinstance(t.ops[0], (ast.Is, ast.IsNot))
+                             and isinstance(t.comparators[0], ast.Constant) and t.comparators[0].value is None)
+                    # the same decision with the branches the other way round: under `<x> is None` nothing is done for the cell
+                    # (the pass of the loop ends, or the other branch does the writing)
+                    skips_none = ident and isinstance(t.ops[0], ast.Is) and isinstance(n, ast.If) and all(isinstance(s_, (ast.Continue, ast.Pass)) for s_ in n.body)
+                    if not (ident and (isinstance(t.ops[0], ast.IsNot) or skips_none)):
                         ok = False
                         why = "cell skipped under `%s`" % norm(t)
         rep.ob(RULE, js, q, "a cell is omitted only when it `is None`", ok,
@@ -608,6 +616,16 @@ def rule_n_reader_keeps_every_row(repo: Repo, rep: Report) -> None:
              "around it, no `continue` on it before it, no filter in a comprehension): a row that binds nothing is a row (SELECT ?x WHERE { OPTIONAL {..} } -> the "
              "row count must survive). A line-oriented reader that skips an empty record does so under a test that also looks at the number of variables: with "
              "exactly one variable the empty line IS the row that leaves it unbound ('?x\\n\\n<a>\\n' has two rows)", floor=5)
+
+    def comp_ob(mod, q: str, comp: ast.AST, at: ast.AST) -> None:
+        elt_names = H.names_in(comp.elt)  # type: ignore[attr-defined]
+        gens_bound = set()
+        for g in comp.generators:  # type: ignore[attr-defined]
+            gens_bound |= H.bound_in(g.target)
+        bad = [t for g in comp.generators for t in g.ifs if H.names_in(t) & elt_names & gens_bound]  # type: ignore[attr-defined]
+        rep.ob(RULE, mod, q, comp, not bad, "every record becomes a row" if not bad else
+               "rows are filtered by `%s`: a row in which nothing is bound is dropped" % norm(bad[0])[:60], node=at)
+
     for short in RESULT_READERS:
         mod = repo.mod(RESULTS_PKG + short)
         # functions whose return value is stored into <x>.bindings (JSONResult._get_bindings)
@@ -616,19 +634,30 @@ def rule_n_reader_keeps_every_row(repo: Repo, rep: Report) -> None:
             if isinstance(n, ast.Assign) and any(isinstance(t, ast.Attribute) and t.attr == "bindings" for t in n.targets) and isinstance(n.value, ast.Call):
                 feeders.add(norm(n.value.func).split(".")[-1])
             # comprehension form: <x>.bindings = [row for ... if <test on the row>]
-            if isinstance(n, ast.Assign) and any(isinstance(t, ast.Attribute) and t.attr == "bindings" for t in n.targets) and isinstance(n.value, (ast.ListComp, ast.GeneratorExp)):
-                elt_names = H.names_in(n.value.elt)
-                gens_bound = set()
-                for g in n.value.generators:
-                    gens_bound |= H.bound_in(g.target)
-                bad = [t for g in n.value.generators for t in g.ifs if H.names_in(t) & elt_names & gens_bound]
-                rep.ob(RULE, mod, mod.qual_of(n) or "<module>", n.value, not bad, "every record becomes a row" if not bad else
-                       "rows are filtered by `%s`: a row in which nothing is bound is dropped" % norm(bad[0])[:60], node=n)
+            if isinstance(n, ast.Assign) and any(isinstance(t, ast.Attribute) and t.attr == "bindings" for t in n.targets):
+                comp = H.row_comprehension(n.value)
+                if comp is not None:
+                    comp_ob(mod, mod.qual_of(n) or "<module>", comp, n)
         for q, f in mod.functions():
             returned = {r.value.id for r in own_nodes(f) if isinstance(r, ast.Return) and isinstance(r.value, ast.Name)}
             # local lists that become <x>.bindings inside this very function (the row loop written in place, or inlined)
             stored = {a.value.id for a in own_nodes(f) if isinstance(a, ast.Assign) and isinstance(a.value, ast.Name)
                       and any(isinstance(t, ast.Attribute) and t.attr == "bindings" for t in a.targets)}
+            # the same comprehension where the list of rows gets to .bindings through a local name of this function or as the
+            # value a feeder returns (`rows = [.. for ..]; return rows`, `return [.. for ..]`): one obligation per comprehension
+            row_lists = set(stored) | (returned if f.name in feeders else set())
+            for a in own_nodes(f):
+                val = None
+                if isinstance(a, ast.Return) and f.name in feeders:
+                    val = a.value
+                elif isinstance(a, ast.Assign) and any(isinstance(t, ast.Name) and t.id in row_lists for t in a.targets):
+                    val = a.value
+                elif isinstance(a, ast.AnnAssign) and isinstance(a.target, ast.Name) and a.target.id in row_lists:
+                    val = a.value
+                comp = H.row_comprehension(val) if val is not None else None
+                if comp is not None:
+                    rep.analysed("%s:%s" % (mod.rel, q))
+                    comp_ob(mod, q, comp, a)
             for c in own_nodes(f):
                 if not (isinstance(c, ast.Call) and isinstance(c.func, ast.Attribute) and c.func.attr == "append" and len(c.args) == 1):
                     continue
@@ -1129,12 +1158,10 @@ def rule_t_csv_marker_stripped(repo: Repo, rep: Report) -> None:
     tv = w.args.args[1].arg
     markers = {}
     for cls, _code, arm_if in H.class_arms(repo, mod, w, tv):
-        body = arm_if.body  # the marker is recognised as <constant> + <the term>, in terms of serializeTerm's own parameter
-        for s in body:
-            for x in ast.walk(s):
-                if not isinstance(x, ast.Return) or x.value is None:
-                    continue
-                v = x.value
+        # the marker is recognised as <constant> + <the term>, in terms of serializeTerm's own parameter, in what the arm hands back
+        # (a `return` of the arm, or the arm's branch of a returned conditional expression - vlib.h_c16.arm_results)
+        if True:
+            for v in H.arm_results(mod, arm_if):
                 m = None
                 if isinstance(v, ast.JoinedStr) and len(v.values) >= 2 and H.const_str(v.values[0]) and tv in H.names_in(v):
                     m = H.const_str(v.values[0])
@@ -1253,8 +1280,8 @@ def rule_u_csv_field_limit_raised(repo: Repo, rep: Report) -> None:
     RULE = "C16.u-csv-reader-field-limit-raised"
     rep.rule(RULE,
              "wherever SPARQL results are read, every use of a csv.reader / csv.DictReader object (next(), iteration, handing it on) is preceded on every path by "
-             "csv.field_size_limit(N) with N a constant >= 2**31 - 1 (or sys.maxsize) - called there, or in a function of the module on every path to its return, or in a "
-             "@contextmanager of the module on every path to its yield when the use is inside the `with`: the csv module raises _csv.Error('field larger than field limit (131072)') on "
+             "csv.field_size_limit(N) with N a constant >= 2**31 - 1 (or sys.maxsize) - called there, or in a function of the module (or one it imports by name from a module of the tree) on every path to its return, or in a "
+             "@contextmanager of that kind on every path to its yield when the use is inside the `with`: the csv module raises _csv.Error('field larger than field limit (131072)') on "
              "a longer field, so a result holding Literal('x' * 200000) - which CSVResultSerializer writes as one field - could not be parsed back", floor=2)
     BIG = 2 ** 31 - 1
 
@@ -1263,7 +1290,7 @@ def rule_u_csv_field_limit_raised(repo: Repo, rep: Report) -> None:
         v = H.fold_int_in(repo, mod, e, H.local_names(fn))
         return (v is not None and v >= BIG) or norm(e) in ("sys.maxsize", "maxsize")
 
-    def sets_limit(caller: ast.AST):
+    def sets_limit(caller: ast.AST, caller_mod):
         """for vlib.h_c16.call_establishes: csv.field_size_limit(N) puts the large limit in force when N is big - N as written,
         or the argument that the caller hands in for the parameter N of the helper the call sits in - and takes it back otherwise"""
         def sets(mod, call: ast.Call, env, fn):
@@ -1271,7 +1298,7 @@ def rule_u_csv_field_limit_raised(repo: Repo, rep: Report) -> None:
                 return None
             a = call.args[0]
             if env is not None and isinstance(a, ast.Name) and a.id in env:
-                return big(mod, env[a.id], caller)
+                return big(caller_mod, env[a.id], caller)  # the argument is an expression of the caller, read in the caller's module
             return big(mod, a, fn if fn is not None else caller)
         return sets
 
@@ -1290,7 +1317,7 @@ def rule_u_csv_field_limit_raised(repo: Repo, rep: Report) -> None:
             for c in own_nodes(f):
                 if isinstance(c, ast.Call):
                     par = mod.parent.get(id(c))
-                    if H.call_establishes(mod, c, owner, sets_limit(f), isinstance(par, ast.withitem) and par.context_expr is c):
+                    if H.call_establishes(mod, c, owner, sets_limit(f, mod), isinstance(par, ast.withitem) and par.context_expr is c, repo=repo):
                         raised.append(g.node_of(c, mod))
             for ctor in ctors:
                 n_ctor += 1
